@@ -1758,7 +1758,10 @@ impl Tree {
     /// assert!(tree.is_binary().unwrap());
     /// ```
     pub fn resolve(&mut self) -> Result<(), TreeError> {
+        #[cfg(not(phylotree_verif))]
         let rng = &mut rand::thread_rng();
+        #[cfg(phylotree_verif)]
+        let rng = &mut crate::verif::rng();
         let mut to_binarize = vec![];
         for node in self.nodes.iter() {
             if node.children.len() > 2 {
@@ -2271,6 +2274,19 @@ END;
         let tree = builder.build();
         print_tree(&tree)?;
         Ok(())
+    }
+}
+
+#[cfg(phylotree_verif)]
+impl Tree {
+    pub(crate) fn verif_nodes(&self) -> &[Node] {
+        &self.nodes
+    }
+    pub(crate) fn verif_cache_state(&self) -> (bool, bool) {
+        (
+            self.leaf_index.borrow().is_some(),
+            self.partitions.borrow().is_some(),
+        )
     }
 }
 
